@@ -46,7 +46,7 @@ func (t *T0x0102) Parse(jtMsg *jt808.JTMessage) error {
 		}
 		n := int(t.AuthCodeLen) // uint8运算在鉴权码长度>=220时会溢出
 		t.AuthCode = string(body[1 : 1+n])
-		t.TerminalIMEI = string(body[1+n : 1+n+15])
+		t.TerminalIMEI = string(bytes.TrimRight(body[1+n:1+n+15], "\x00"))
 		data := body[1+n+15 : 1+n+15+20]
 		if index := bytes.IndexByte(data, 0x00); index != -1 {
 			data = data[:index]
@@ -63,7 +63,7 @@ func (t *T0x0102) Encode() []byte {
 	if t.Version == consts.JT808Protocol2019 {
 		data = append(data, t.AuthCodeLen)
 		data = append(data, []byte(t.AuthCode)...)
-		data = append(data, []byte(t.TerminalIMEI)...)
+		data = append(data, utils.String2FillingBytes(t.TerminalIMEI, 15)...)
 		data = append(data, utils.String2FillingBytes(t.SoftwareVersion, 20)...)
 	} else {
 		data = append(data, []byte(t.AuthCode)...)
